@@ -1192,6 +1192,28 @@ func ruleReaderAdvances(r *Run, p *Prog, rule string) {
 			continue
 		}
 		okAll, n := true, 0
+		// a path that delivers nothing leaves the read head where it is: stepping over an empty or
+		// stale slot walks past a position a producer fills later (never delivered, never counted)
+		nIdle, idleBad := 0, ""
+		for _, pa := range paths {
+			ret, isRet := pa.Exit.(*ssa.Return)
+			if !isRet || len(ret.Results) != 2 {
+				continue
+			}
+			if b, isB := constBool(pa.Resolve(ret.Results[1])); isB && !b {
+				nIdle++
+				for _, in := range pa.Instrs() {
+					if st, ok := in.(*ssa.Store); ok {
+						if fa, ok := st.Addr.(*ssa.FieldAddr); ok && fname(fieldVar(fa)) == "readIndex" && idleBad == "" {
+							idleBad = p.Pos(st.Pos())
+						}
+					}
+				}
+			}
+		}
+		if nIdle > 0 {
+			r.Ob(rule, FnName(f)+"/idle-keeps-read-head", tern(idleBad != "", idleBad, p.Pos(f.Pos())), idleBad == "", true, tern(idleBad == "", fmt.Sprintf("%d non-delivering path(s): none writes readIndex", nIdle), "a path of TryNext that delivers nothing (empty or stale slot) moves readIndex: the reader steps over a position that is written later, and that message is neither delivered nor counted as dropped"))
+		}
 		for _, pa := range paths {
 			ret, isRet := pa.Exit.(*ssa.Return)
 			if !isRet || len(ret.Results) != 2 {
